@@ -226,6 +226,15 @@ def run(chk, repo):
             if find_call(v):
                 reg_find(nm, v)
                 continue
+            if isinstance(v, ast.IfExp) and finds and isinstance(v.test, ast.Compare) and isinstance(v.test.left, ast.Name) and v.test.left.id == finds[0][0]:
+                # L = fallback if f == -1 else f   where f = <find> was bound before (or the mirrored form)
+                pc = G.cmp_parts(v.test)
+                if pc and pc[2] == '-1' and pc[1] in ('==', '!='):
+                    hit, miss = (v.orelse, v.body) if pc[1] == '==' else (v.body, v.orelse)
+                    if isinstance(hit, ast.Name) and hit.id == finds[0][0]:
+                        fallback = (st, simple_aff(miss, {k: w for k, w in env.items() if k not in (nm, finds[0][0])}))
+                        env[nm] = Aff.sym('L')
+                        continue
             if isinstance(v, ast.IfExp):
                 # L = fallback if <find> == -1 else <find>   (or the mirrored form)
                 pc = G.cmp_parts(v.test)
